@@ -1,3 +1,291 @@
 import Usual.Common
-/-! Model driver for C05 (stub: not built yet). -/
-def main : IO Unit := IO.println "stub"
+import Usual.C05.MDInst
+import Usual.C05.Keccak
+import Usual.C05.Sha3
+import Usual.C05.Hmac
+import Usual.C05.ChaCha
+/-! Model driver for C05 (line protocol, see harness/C05/h.c for the implementation side). -/
+open Usual Usual.C05
+
+namespace C05Drv
+
+abbrev Bytes := List UInt8
+abbrev M32 := MD.Ctx (Array UInt32)
+abbrev M64 := MD.Ctx (Array UInt64)
+
+def fK : Bytes → Bytes := Keccak.fBytes
+
+def mdDigest {σ : Type} (A : MD.Alg σ) (rlen : Nat) : Hmac.Digest (MD.Ctx σ) :=
+  { blockLen := A.B, resultLen := rlen, init := MD.reset A, update := MD.update A, final := MD.final A }
+
+def sha3Digest (params : Nat × Nat × UInt8) : Hmac.Digest Sha3.Ctx :=
+  { blockLen := (1600 - params.1) / 8, resultLen := params.2.1, init := Sha3.reset params,
+    update := Sha3.update fK, final := fun c => (Sha3.final fK c).1 }
+
+/-- a digest context of one of the three state shapes -/
+inductive DCtx
+  | c32 (D : Hmac.Digest M32) (c : M32)
+  | c64 (D : Hmac.Digest M64) (c : M64)
+  | c3 (D : Hmac.Digest Sha3.Ctx) (c : Sha3.Ctx)
+
+inductive HCtx
+  | h32 (D : Hmac.Digest M32) (c : Hmac.Ctx M32)
+  | h64 (D : Hmac.Digest M64) (c : Hmac.Ctx M64)
+  | h3 (D : Hmac.Digest Sha3.Ctx) (c : Hmac.Ctx Sha3.Ctx)
+
+open Usual.Gen.C05 in
+def sha3Params (name : String) : Option (Nat × Nat × UInt8) :=
+  match name with
+  | "sha3_224" => some sha3_224Params
+  | "sha3_256" => some sha3_256Params
+  | "sha3_384" => some sha3_384Params
+  | "sha3_512" => some sha3_512Params
+  | "shake128" => some shake128Params
+  | "shake256" => some shake256Params
+  | _ => none
+
+open Usual.Gen.C05 in
+def newDigest (name : String) : Option DCtx :=
+  match name with
+  | "md5" => let D := mdDigest MD.md5 md5Digest; some (.c32 D D.init)
+  | "sha1" => let D := mdDigest MD.sha1 sha1Digest; some (.c32 D D.init)
+  | "sha224" => let D := mdDigest MD.sha224 sha224_digest_length; some (.c32 D D.init)
+  | "sha256" => let D := mdDigest MD.sha256 sha256_digest_length; some (.c32 D D.init)
+  | "sha384" => let D := mdDigest MD.sha384 sha384_digest_length; some (.c64 D D.init)
+  | "sha512" => let D := mdDigest MD.sha512 sha512_digest_length; some (.c64 D D.init)
+  | n => (sha3Params n).map fun p => let D := sha3Digest p; .c3 D D.init
+
+def DCtx.update : DCtx → Bytes → DCtx
+  | .c32 D c, b => .c32 D (D.update c b)
+  | .c64 D c, b => .c64 D (D.update c b)
+  | .c3 D c, b => .c3 D (D.update c b)
+
+def DCtx.final : DCtx → Bytes
+  | .c32 D c => D.final c
+  | .c64 D c => D.final c
+  | .c3 D c => D.final c
+
+def DCtx.reset : DCtx → DCtx
+  | .c32 D _ => .c32 D D.init
+  | .c64 D _ => .c64 D D.init
+  | .c3 D _ => .c3 D D.init
+
+def newHmac (name : String) (key : Bytes) : Option HCtx :=
+  (newDigest name).map fun
+    | .c32 D _ => .h32 D (Hmac.new D key)
+    | .c64 D _ => .h64 D (Hmac.new D key)
+    | .c3 D _ => .h3 D (Hmac.new D key)
+
+def HCtx.update : HCtx → Bytes → HCtx
+  | .h32 D c, b => .h32 D (Hmac.update D c b)
+  | .h64 D c, b => .h64 D (Hmac.update D c b)
+  | .h3 D c, b => .h3 D (Hmac.update D c b)
+
+def HCtx.final : HCtx → Bytes
+  | .h32 D c => Hmac.final D c
+  | .h64 D c => Hmac.final D c
+  | .h3 D c => Hmac.final D c
+
+def HCtx.reset : HCtx → HCtx
+  | .h32 D c => .h32 D (Hmac.reset D c)
+  | .h64 D c => .h64 D (Hmac.reset D c)
+  | .h3 D c => .h3 D (Hmac.reset D c)
+
+structure St where
+  dig : Option DCtx := none
+  digDone : Bool := false
+  hm : Option HCtx := none
+  hmDone : Bool := false
+  sh : Option Sha3.Ctx := none
+  kc : Option Keccak.Ctx := none
+  prng : Option Sha3.Prng := none
+  cc : ChaCha.Ctx := ChaCha.empty
+  ccKey : Bool := false
+  ccNonce : Bool := false
+
+def bad (s : St) : St × String := (s, "bad-op")
+
+def parseNat (w : String) : Option Nat :=
+  if w.length > 0 ∧ w.length ≤ 12 ∧ w.all Char.isDigit then w.toNat? else none
+
+/-- byte counts: at most 1 MiB -/
+def parseLen (w : String) : Option Nat :=
+  match parseNat w with
+  | some n => if n ≤ 1048576 then some n else none
+  | none => none
+
+def kOut (c : Keccak.Ctx) (obs : String) : String := s!"{obs} ## {c.pos}"
+
+def ccOut (c : ChaCha.Ctx) (obs : String) : String :=
+  s!"{obs} ## {c.s.pos} {c.s.lo.toNat} {c.s.hi.toNat}"
+
+def step (s : St) (line : String) : St × String :=
+  match words line with
+  | ["#case"] => ({}, "#case")
+  -- digests through the DigestInfo API
+  | ["d.new", name] =>
+    match newDigest name with
+    | some d => ({ s with dig := some d, digDone := false }, "ok")
+    | none => bad s
+  | ["d.upd", hex] =>
+    match s.dig, parseHex hex with
+    | some d, some b => if s.digDone then bad s else ({ s with dig := some (d.update b) }, "ok")
+    | _, _ => bad s
+  | ["d.fin"] =>
+    match s.dig with
+    | some d => if s.digDone then bad s else ({ s with digDone := true }, toHex d.final)
+    | none => bad s
+  | ["d.reset"] =>
+    match s.dig with
+    | some d => ({ s with dig := some d.reset, digDone := false }, "ok")
+    | none => bad s
+  -- HMAC
+  | ["h.new", name, hex] =>
+    match parseHex hex with
+    | some k =>
+      match newHmac name k with
+      | some h => ({ s with hm := some h, hmDone := false }, "ok")
+      | none => bad s
+    | none => bad s
+  | ["h.upd", hex] =>
+    match s.hm, parseHex hex with
+    | some h, some b => if s.hmDone then bad s else ({ s with hm := some (h.update b) }, "ok")
+    | _, _ => bad s
+  | ["h.fin"] =>
+    match s.hm with
+    | some h => if s.hmDone then bad s else ({ s with hmDone := true }, toHex h.final)
+    | none => bad s
+  | ["h.reset"] =>
+    match s.hm with
+    | some h => ({ s with hm := some h.reset, hmDone := false }, "ok")
+    | none => bad s
+  -- SHA3Context API (repeated extraction)
+  | ["sh.new", name] =>
+    match sha3Params name with
+    | some p => ({ s with sh := some (Sha3.reset p) }, "ok")
+    | none => bad s
+  | ["sh.upd", hex] =>
+    match s.sh, parseHex hex with
+    | some c, some b => let c' := Sha3.update fK c b; ({ s with sh := some c' }, kOut c'.k "ok")
+    | _, _ => bad s
+  | ["sh.ext", n] =>
+    match s.sh, parseLen n with
+    | some c, some n => let r := Sha3.extract fK c n; ({ s with sh := some r.2 }, kOut r.2.k (toHex r.1))
+    | _, _ => bad s
+  | ["sh.fin"] =>
+    match s.sh with
+    | some c => let r := Sha3.final fK c; ({ s with sh := some r.2 }, kOut r.2.k (toHex r.1))
+    | none => bad s
+  -- raw sponge
+  | ["k.init", cap] =>
+    match parseNat cap with
+    | some cap =>
+      match Keccak.init cap with
+      | some c => ({ s with kc := some c }, "1")
+      | none => ({ s with kc := none }, "0")
+    | none => bad s
+  | ["k.abs", hex] =>
+    match s.kc, parseHex hex with
+    | some c, some b => let c' := Keccak.absorb fK c b; ({ s with kc := some c' }, kOut c' "ok")
+    | _, _ => bad s
+  | ["k.sqz", n] =>
+    match s.kc, parseLen n with
+    | some c, some n => let r := Keccak.squeeze fK c n; ({ s with kc := some r.2 }, kOut r.2 (toHex r.1))
+    | _, _ => bad s
+  | ["k.sqx", hex] =>
+    match s.kc, parseHex hex with
+    | some c, some b => let r := Keccak.squeezeXor fK c b; ({ s with kc := some r.2 }, kOut r.2 (toHex r.1))
+    | _, _ => bad s
+  | ["k.enc", hex] =>
+    match s.kc, parseHex hex with
+    | some c, some b => let r := Keccak.encrypt fK c b; ({ s with kc := some r.2 }, kOut r.2 (toHex r.1))
+    | _, _ => bad s
+  | ["k.dec", hex] =>
+    match s.kc, parseHex hex with
+    | some c, some b => let r := Keccak.decrypt fK c b; ({ s with kc := some r.2 }, kOut r.2 (toHex r.1))
+    | _, _ => bad s
+  | ["k.pad", hex] =>
+    match s.kc, parseHex hex with
+    | some c, some b => let c' := Keccak.pad fK c b; ({ s with kc := some c' }, kOut c' "ok")
+    | _, _ => bad s
+  | ["k.rew"] =>
+    match s.kc with
+    | some c => let c' := Keccak.rewind c; ({ s with kc := some c' }, kOut c' "ok")
+    | none => bad s
+  | ["k.fgt"] =>
+    match s.kc with
+    | some c => let c' := Keccak.forget c; ({ s with kc := some c' }, kOut c' "ok")
+    | none => bad s
+  | ["k.dump"] =>
+    match s.kc with
+    | some c => (s, s!"dump ## {toHex c.st}")
+    | none => bad s
+  | ["k.perm", hex] =>
+    match parseHex hex with
+    | some b => if b.length = 200 then (s, toHex (fK b)) else bad s
+    | none => bad s
+  -- keccak_prng
+  | ["p.init", cap] =>
+    match parseNat cap with
+    | some cap =>
+      match Sha3.prngInit cap with
+      | some p => ({ s with prng := some p }, "1")
+      | none => ({ s with prng := none }, "0")
+    | none => bad s
+  | ["p.add", hex] =>
+    match s.prng, parseHex hex with
+    | some p, some b => let p' := Sha3.prngAddData fK p b; ({ s with prng := some p' }, kOut p'.ctx "ok")
+    | _, _ => bad s
+  | ["p.ext", n] =>
+    match s.prng, parseLen n with
+    | some p, some n =>
+      let r := Sha3.prngExtract fK p n
+      ({ s with prng := some r.2 }, kOut r.2.ctx (match r.1 with | some b => toHex b | none => "false"))
+    | _, _ => bad s
+  -- ChaCha
+  | ["c.key256", hex] =>
+    match parseHex hex with
+    | some k => if k.length = 32 then ({ s with cc := ChaCha.setKey256 s.cc k, ccKey := true }, "ok") else bad s
+    | none => bad s
+  | ["c.key128", hex] =>
+    match parseHex hex with
+    | some k => if k.length = 16 then ({ s with cc := ChaCha.setKey128 s.cc k, ccKey := true }, "ok") else bad s
+    | none => bad s
+  | ["c.nonce", lo, hi, iv] =>
+    match parseNat lo, parseNat hi with
+    | some lo, some hi =>
+      if lo < 2 ^ 32 ∧ hi < 2 ^ 32 then
+        if iv = "null" then
+          if s.ccNonce then ({ s with cc := ChaCha.setNonce s.cc (UInt32.ofNat lo) (UInt32.ofNat hi) none }, "ok")
+          else bad s
+        else match parseHex iv with
+          | some v =>
+            if v.length = 8 then
+              ({ s with cc := ChaCha.setNonce s.cc (UInt32.ofNat lo) (UInt32.ofNat hi) (some v), ccNonce := true }, "ok")
+            else bad s
+          | none => bad s
+      else bad s
+    | _, _ => bad s
+  | ["c.ks", n] =>
+    match parseLen n with
+    | some n =>
+      if s.ccKey ∧ s.ccNonce then
+        let r := ChaCha.keystream s.cc.bf s.cc.s n
+        let cc := { s.cc with s := r.2 }
+        ({ s with cc := cc }, ccOut cc (toHex r.1))
+      else bad s
+    | none => bad s
+  | ["c.xor", hex] =>
+    match parseHex hex with
+    | some b =>
+      if s.ccKey ∧ s.ccNonce then
+        let r := ChaCha.keystreamXor s.cc.bf s.cc.s b
+        let cc := { s.cc with s := r.2 }
+        ({ s with cc := cc }, ccOut cc (toHex r.1))
+      else bad s
+    | none => bad s
+  | _ => bad s
+
+end C05Drv
+
+def main : IO Unit := Usual.runDriver ({} : C05Drv.St) C05Drv.step
